@@ -163,6 +163,9 @@ REPRO = {
 
 
 def classify(kf, rec):
+    import common
+    if common.repro_only(kf, rec):
+        return True
     c = rec["case"]
     cl = kf.get("classifier")
     what = rec["what"]
@@ -241,6 +244,13 @@ def run(chk: Check) -> None:
         if i < 2:
             chk.sample({"doc": c["doc"][:200], "opts": c["opts"], "literals": [list(x) for x in la[:6]]})
     chk.port_stat("spec: literal spans of the output == literal spans of the parser input", len(cases), nb)
+    # listed with a fixed reproducer only (D-95): CJK/Latin spacing inside a template tag
+    from flowmark import reformat_text as _rt
+    doc = "{% tag \u4e2d\u6587abc %} x\n"
+    out = _rt(doc)
+    chk.count()
+    if "{% tag \u4e2d\u6587abc %}" not in out:
+        chk.fail("property", {"doc": doc, "opts": {}, "out": out, "repro": "D-95"}, "template tag changed: " + repr(out), classify)
 
 
 def replay(path: str) -> int:
